@@ -120,6 +120,20 @@ def contract_stream(R, g, fails, dis, stats):
         dis.append({"why": "the hunk-tail differential run did not complete", "log": out[-1500:]})
     elif int(m2.group(1)) > 0:
         dis.append({"why": "Model/HunkTail.v differs from scanner.rs::generate_hunks", "log": out[out.find("DISAGREEMENTS"):][:2500]})
+    # the end-to-end theorems of Proofs/ScanFileP.v (C06_scan_file_standalone, C06_scan_file_disabled_untouched_word and the
+    # computed instances for the other styles) replayed on the real scanner: their conclusions are what scan_tree must return
+    rc, out, dt = core.sh(["python3", str(core.VERIF / "lib" / "scanfile_difftest.py"), str(R.seed + 21), "240" if R.tier == "quick" else "6000"],
+                          env=env, timeout=3000)
+    m3 = __import__("re").search(r"statement 1: (\d+) instances, mismatches (\d+); statement 2: (\d+) instances, mismatches (\d+); "
+                                 r"statement 3: (\d+) disabled-style instances, with a match (\d+)", out)
+    stats["scan_file_theorems_on_real_scanner"] = {"enhanced_standalone": int(m3.group(1)), "scan_file_standalone": int(m3.group(3)),
+                                                   "disabled_untouched": int(m3.group(5))} if m3 else None
+    if not m3 or int(m3.group(1)) == 0:
+        dis.append({"why": "the scan-file replay did not complete", "log": out[-1500:]})
+    elif rc != 0:
+        ln = [l for l in out.splitlines() if "MISMATCH" in l or "WITNESS" in l]
+        fails.append({"why": "the real scanner contradicts the conclusion of a Proofs/ScanFileP.v theorem on an instance of its hypotheses",
+                      "instances": ln[:5]})
 
 
 def run(R):
